@@ -40,6 +40,7 @@ type c15World struct {
 }
 
 func runC15(t *testing.T, r *simkit.Run) {
+	dropPools()
 	simkit.Bubble(t, r, func() {
 		w := &c15World{r: r, tp: r.Tape, ref: map[string]*rtMeta{}, lex: map[string]*rtMeta{}}
 		defer func() {
